@@ -43,11 +43,32 @@ fn parse_line(line: &str) -> Result<Option<(IpAddr, HashSet<DomainName>)>, Error
     let mut new_names = HashSet::new();
 
     for (i, octet) in line.char_indices() {
+        // the rest of the line is a comment, whatever it contains
+        if let State::CommentToEndOfLine = state {
+            break;
+        }
+
         if !octet.is_ascii() {
             return Err(Error::ExpectedAscii { octet });
         }
 
         state = match (&state, octet) {
+            // a comment ends the name being read
+            (State::ReadingName { start }, '#') => {
+                let name_str = &line[*start..i];
+                match DomainName::from_relative_dotted_string(&DomainName::root_domain(), name_str)
+                {
+                    Some(name) => {
+                        new_names.insert(name);
+                    }
+                    None => {
+                        return Err(Error::CouldNotParseName {
+                            name: name_str.into(),
+                        })
+                    }
+                }
+                State::CommentToEndOfLine
+            }
             (_, '#') => State::CommentToEndOfLine,
             (State::CommentToEndOfLine, _) => break,
 
